@@ -33,7 +33,7 @@ WALL_CAP = 1500
 
 
 def budget(tier):
-    return 300 if tier == "quick" else 6000
+    return 400 if tier == "quick" else 6000
 
 
 LATS = [(1, 2), (2, 1), (1, 3), (3, 1), (2, 2), (2, 2), (2, 2), (2, 3), (3, 2), (1, 4), (4, 1), (2, 3), (3, 2), (3, 3), (2, 4), (4, 2), (2, 4), (4, 2)]
